@@ -123,18 +123,10 @@ def run(ctx, res):
                       (len(push), APE.vstr(sharedv) if sharedv else None, [APE.vstr(x.b) for x in cnt]), add.loc(add.body), p.describe(add))
         else:
             res.bad("C09.R3", site(add, "cadence"), "prefix sharing does not depend on the restart counter", add.loc(add.body), p.describe(add))
-    rs = prog.need("block_builder_reset", fmt.BB)
-    ev = APE.run(prog, cg, rs, bound=APE.BOUND)
-    for p in ev.paths:
-        if p.end != "exit":
-            continue
-        evs = [e for e in p.events if e.kind != "branch"]
-        names = [(e.a, [APE.vstr(x) for x in e.b][1:]) for e in evs if e.kind == "call"]
-        st = {re.sub(r"@\d+", "", e.a): e.b for e in evs if e.kind == "store"}
-        good = ("uint64_vec_reset", []) in names and ("uint64_vec_add", ["#0"]) in names and names.index(("uint64_vec_reset", [])) < names.index(("uint64_vec_add", ["#0"])) \
-            and ("ubuf_reset", []) in names and st.get("b->counter") == ("c", 0) and st.get("b->finished") == ("c", 0)
-        res.check(good, "C09.R3", site(rs, "reset"), "reset: buffers emptied, restart 0 re-established, counter 0, not finished",
-                  "reset leaves the builder in another state: %s %s" % (names, {k: APE.vstr(v) for k, v in st.items()}), rs.loc(rs.body))
+    # what reset (or finish itself) must re-establish: decided by interpretation - a reused builder yields a block holding exactly
+    # the next entries (rules/bbrule.py: reuse)
+    from . import bbrule as _bbr
+    _bbr.reuse(ctx, res, "C09.R3")
 
     # ---- R4 size gate -----------------------------------------------------------------------
     res.floor("C09.R4", 2)
@@ -160,6 +152,12 @@ def run(ctx, res):
             gate = (vv, rest, const * sign, abs(terms[est[0]]) == 1 and abs(terms[bs[0]]) == 1)
         flushed = bool(p.calls("_mtbl_writer_flush"))
         if gate is None:
+            # no size test on a path that has established that the open block is empty: cutting an empty block writes nothing
+            # (the flush returns at once), so there is nothing to decide
+            empty = [v_ for (a_, b_), v_ in p.cons.items() if a_.startswith("block_builder_empty(") and b_ == "#0"]
+            if empty and all(EQ not in v_ for v_ in empty) and not flushed:
+                res.ok("C09.R4", site(wadd, "no-cut:empty-block"), "no size test needed while the open block is empty")
+                continue
             res.bad("C09.R4", site(wadd, "size-gate"), "no decision compares the size estimate with the configured block size on a path that accepts an entry",
                     wadd.loc(wadd.body), p.describe(wadd))
             continue
